@@ -1053,8 +1053,26 @@ func (d *driver) gexCase(r [3]uint32, want, wantChoose int, complete bool, budge
 			*budget--
 			d.stat["gex_completed"]++
 			if !res.hOK {
+				// a defect of the exchange hash is deterministic for a request: confirm it on two more exchanges
+				// before it counts (anything that does not repeat is recorded in the evidence, not judged)
+				first := res.hDetail
+				again := 0
+				for i := 0; i < 2; i++ {
+					if r2 := probeGex(name, d.hks[0], r, true, d.rng); !r2.hOK {
+						again++
+						res = r2
+					}
+				}
+				if again < 2 {
+					d.stat["gex_unrepeatable_failures"]++
+					d.out.Extra["gex_unrepeatable_failure_detail"] = fmt.Sprintf("%s (%d,%d,%d): %s; server: %v", name, r[0], r[1], r[2], first, res.sErr)
+					continue
+				}
+			}
+			if !res.hOK {
 				det["detail"] = res.hDetail
-				d.viol("gex-exchange-hash-differs-from-spec", "independent DH-GEX client: the server's signature does not verify over H = hash(preimage with the requested min/n/max, p, g, e, f, K)", det)
+				det["server_error"] = fmt.Sprint(res.sErr)
+				d.viol("gex-exchange-hash-differs-from-spec", "independent DH-GEX client ("+name+"): the server's signature does not verify over H = hash(preimage with the requested min/n/max, p, g, e, f, K): "+res.hDetail, det)
 			}
 		}
 		d.stat["gex_probes"]++
